@@ -576,3 +576,201 @@ Proof.
   apply andb_prop in H1. destruct H1 as [H1 H3]. apply andb_prop in H1. destruct H1 as [H1 H4].
   split; [apply Nat.ltb_lt; exact H1|]. split; [apply Nat.leb_le; exact H4|exact H3].
 Qed.
+
+(* ------------------------------------------------------------------------------------------------ *)
+(* 5. tracks that do not exist yet: creating them beforehand changes nothing                          *)
+(* The theorems above speak about existing tracks.  A track command creates the missing tracks up to its number, each the
+   default track of its own number, whatever the order: running a program from s, or from s with the tracks up to m created
+   beforehand (with_tracks_upto s m), gives the same song up to those tracks - and the same song when the program names m. *)
+
+Definition wtu_res (m : nat) (r : res song) : res song :=
+  match r with Ok s => Ok (with_tracks_upto s m) | Panic x => Panic x | OutOfFuel => OutOfFuel | Unsupported w => Unsupported w end.
+
+Lemma upd_nth_app1 {A} (f : A -> A) (l l' : list A) : forall n, (n < length l)%nat -> upd_nth n f (l ++ l') = upd_nth n f l ++ l'.
+Proof.
+  induction l as [|x l IH]; intros n H; [cbn in H; lia|]. destruct n as [|n]; cbn [app upd_nth]; [reflexivity|].
+  rewrite IH by (cbn in H; lia). reflexivity.
+Qed.
+
+Lemma wtu_settle s m : cur_ok s -> settle_octave_once (with_tracks_upto s m) = with_tracks_upto (settle_octave_once s) m.
+Proof.
+  intros Hc. unfold settle_octave_once, with_tracks_upto, new_tracks. cbn [s_octave_once s_set_tracks].
+  destruct (s_octave_once s =? 0); [reflexivity|].
+  unfold upd_cur. cbn [s_tracks s_cur s_set_tracks s_set_octave_once s_timebase]. rewrite upd_nth_length.
+  rewrite upd_nth_app1 by exact Hc. reflexivity.
+Qed.
+
+Lemma wtu_wtu s t m : (t <= m)%nat -> with_tracks_upto (with_tracks_upto s t) m = with_tracks_upto s m.
+Proof.
+  intros H. unfold with_tracks_upto, new_tracks. cbn [s_tracks s_set_tracks s_timebase].
+  rewrite <- app_assoc, <- map_app, app_length, map_length, seq_length. set (len := length (s_tracks s)).
+  replace (S m - len)%nat with ((S t - len) + (S m - (len + (S t - len))))%nat by lia.
+  rewrite seq_app. reflexivity.
+Qed.
+
+Lemma wtu_set_cur s m k : with_tracks_upto (s_set_cur s k) m = s_set_cur (with_tracks_upto s m) k.
+Proof. reflexivity. Qed.
+
+Lemma wtu_length s m : length (s_tracks (with_tracks_upto s m)) = Nat.max (length (s_tracks s)) (S m).
+Proof. apply (with_tracks_upto_facts s m). Qed.
+
+Lemma wtu_change s t m : cur_ok s -> (t <= m)%nat ->
+  change_cur_track (with_tracks_upto s m) t = with_tracks_upto (change_cur_track s t) m.
+Proof.
+  intros Hc H. rewrite !change_cur_track_with, (wtu_settle s m Hc), wtu_set_cur, (wtu_wtu _ t m H).
+  rewrite (with_tracks_upto_existing (with_tracks_upto (settle_octave_once s) m) t) by (rewrite wtu_length; lia). reflexivity.
+Qed.
+
+Lemma wtu_local T s m : localT T -> cur_ok s -> T (Ok (with_tracks_upto s m)) = wtu_res m (T (Ok s)).
+Proof.
+  intros L Hc. unfold with_tracks_upto at 1.
+  assert (Hs : same_cur s (s_tracks s ++ new_tracks s m)).
+  { split; [exact Hc|]. split; [rewrite app_length; unfold cur_ok in Hc; lia|]. apply app_nth1. exact Hc. }
+  rewrite (lt_indep _ L s _ Hs). destruct (T (Ok s)) as [s'| | |] eqn:E; cbn [lift wtu_res]; try reflexivity.
+  pose proof (lt_frame _ L _ _ E) as F. pose proof (frame_tracks s s' F) as Ft. destruct F as [F1 [F2 [_ F4]]].
+  f_equal. unfold with_tracks_upto, new_tracks. rewrite F2, F4. f_equal.
+  rewrite upd_nth_app1 by exact Hc. f_equal.
+  symmetry. unfold cur_track. rewrite F1. exact Ft.
+Qed.
+
+(* a program as a composition of its track commands and blocks *)
+Definition run_prog (d steps : nat) (P : tprog) (r : res song) : res song :=
+  fold_left (fun r tb => exec_f (S d) steps (snd tb) (leafT (step_song (exec_f d steps) (TTrack (Z.of_nat (fst tb)))) r)) P r.
+
+Lemma exec_render d steps : forall P r,
+  Forall (fun tb => balanced_toks (snd tb) = true) P -> (pcost (render P) < steps)%nat ->
+  exec_f (S d) steps (render P) r = run_prog d steps P r.
+Proof.
+  induction P as [|tb P IH]; intros r HB HC; [apply exec_nil; lia|].
+  inversion HB as [|x l Hb HBs]; subst.
+  change (render (tb :: P)) with ((TTrack (Z.of_nat (fst tb)) :: snd tb) ++ render P) in *.
+  destruct (balanced_track_cons (Z.of_nat (fst tb)) (snd tb) Hb) as [B1 C1].
+  pose proof (balanced_render P HBs) as B2. destruct (balanced_app _ _ B1 B2) as [_ C]. rewrite C, C1 in HC.
+  rewrite (exec_app_b d steps _ _ r B1 B2) by (rewrite C1; lia).
+  rewrite (exec_track_cons_b d steps _ _ r Hb) by lia.
+  cbn [run_prog fold_left]. apply IH; [exact HBs|lia].
+Qed.
+
+Lemma run_prog_cons d steps tb P r :
+  run_prog d steps (tb :: P) r
+  = run_prog d steps P (exec_f (S d) steps (snd tb) (leafT (step_song (exec_f d steps) (TTrack (Z.of_nat (fst tb)))) r)).
+Proof. reflexivity. Qed.
+Lemma leafT_ok g s : leafT g (Ok s) = if negb (s_break_flag s =? 0) then Ok s else g s.
+Proof. reflexivity. Qed.
+
+Lemma run_prog_err d steps P r : Forall (fun tb => block_ok (S d) steps (snd tb) = true) P ->
+  (forall s, r <> Ok s) -> run_prog d steps P r = r.
+Proof.
+  intros HB. revert r. induction HB as [|tb P Hb _ IH]; intros r H; [reflexivity|]. rewrite run_prog_cons.
+  assert (E : exec_f (S d) steps (snd tb) (leafT (step_song (exec_f d steps) (TTrack (Z.of_nat (fst tb)))) r) = r).
+  { assert (E0 : leafT (step_song (exec_f d steps) (TTrack (Z.of_nat (fst tb)))) r = r)
+      by (destruct r as [s| | |]; [exfalso; apply (H s); reflexivity| | |]; reflexivity).
+    rewrite E0. apply (lt_err _ (block_local steps (S d) _ Hb) r H). }
+  rewrite E. apply IH, H.
+Qed.
+
+(* creating the tracks up to m beforehand commutes with a program whose tracks are at most m *)
+Lemma run_prog_precreate d steps m : forall P s,
+  Forall (fun tb => (fst tb <= m)%nat /\ (fst tb <= 999)%nat /\ block_ok (S d) steps (snd tb) = true) P -> cur_ok s ->
+  run_prog d steps P (Ok (with_tracks_upto s m)) = wtu_res m (run_prog d steps P (Ok s)).
+Proof.
+  induction P as [|tb P IH]; intros s HP Hc; [reflexivity|]. inversion HP as [|x l [Ht [Ht9 Hb]] HP']; subst.
+  rewrite !run_prog_cons, !leafT_ok.
+  pose proof (block_local steps (S d) _ Hb) as L.
+  assert (HB' : Forall (fun tb => block_ok (S d) steps (snd tb) = true) P)
+    by (eapply Forall_impl; [|exact HP']; intros tb' [_ [_ H]]; exact H).
+  change (s_break_flag (with_tracks_upto s m)) with (s_break_flag s).
+  destruct (negb (s_break_flag s =? 0)).
+  - rewrite (wtu_local _ s m L Hc). destruct (exec_f (S d) steps (snd tb) (Ok s)) as [s'| | |] eqn:E; cbn [wtu_res];
+      try (rewrite !run_prog_err by (try exact HB'; intros; discriminate); reflexivity).
+    apply IH; [exact HP'|]. destruct (lt_frame _ L _ _ E) as [F1 [F2 _]]. unfold cur_ok in *. rewrite F1, F2. exact Hc.
+  - rewrite !(step_track_any _ _ _ Ht9), (wtu_change s _ m Hc Ht).
+    assert (Hc1 : cur_ok (change_cur_track s (fst tb))) by apply (change_cur_track_law s (fst tb)).
+    rewrite (wtu_local _ _ m L Hc1).
+    destruct (exec_f (S d) steps (snd tb) (Ok (change_cur_track s (fst tb)))) as [s'| | |] eqn:E; cbn [wtu_res];
+      try (rewrite !run_prog_err by (try exact HB'; intros; discriminate); reflexivity).
+    apply IH; [exact HP'|]. destruct (lt_frame _ L _ _ E) as [F1 [F2 _]]. unfold cur_ok in *. rewrite F1, F2. exact Hc1.
+Qed.
+
+(* the number of tracks never goes down, and a track named by the program exists afterwards *)
+Lemma run_prog_length d steps : forall P s r,
+  Forall (fun tb => (fst tb <= 999)%nat /\ block_ok (S d) steps (snd tb) = true) P ->
+  run_prog d steps P (Ok s) = Ok r ->
+  (length (s_tracks s) <= length (s_tracks r))%nat /\ (s_break_flag s = 0 -> forall m, In m (map fst P) -> (m < length (s_tracks r))%nat).
+Proof.
+  induction P as [|tb P IH]; intros s r HP E.
+  - injection E as <-. split; [lia|]. intros _ m [].
+  - inversion HP as [|x l [Ht9 Hb] HP']; subst. rewrite run_prog_cons, leafT_ok in E.
+    pose proof (block_local steps (S d) _ Hb) as L.
+    assert (HB' : Forall (fun tb => block_ok (S d) steps (snd tb) = true) P)
+      by (eapply Forall_impl; [|exact HP']; intros tb' [_ H]; exact H).
+    destruct (Z.eqb_spec (s_break_flag s) 0) as [Hb0|Hb0]; cbn [negb] in E.
+    + rewrite (step_track_any _ _ _ Ht9) in E.
+      destruct (exec_f (S d) steps (snd tb) (Ok (change_cur_track s (fst tb)))) as [s'| | |] eqn:E1;
+        try (rewrite run_prog_err in E by (try exact HB'; intros; discriminate); discriminate E).
+      destruct (lt_frame _ L _ _ E1) as [_ [F2 _]]. destruct (change_cur_track_law s (fst tb)) as [_ [_ [_ [_ [Lc _]]]]].
+      destruct (IH s' r HP' E) as [I1 I2]. split; [lia|]. intros _ m [<-|Hin]; [lia|]. apply I2; [|exact Hin].
+      rewrite (exec_f_keeps_break_flag steps (S d) _ _ _ E1). unfold change_cur_track, settle_octave_once.
+      destruct (s_octave_once s =? 0); exact Hb0.
+    + destruct (exec_f (S d) steps (snd tb) (Ok s)) as [s'| | |] eqn:E1;
+        try (rewrite run_prog_err in E by (try exact HB'; intros; discriminate); discriminate E).
+      destruct (lt_frame _ L _ _ E1) as [_ [F2 _]]. destruct (IH s' r HP' E) as [I1 _]. split; [lia|]. intros H; contradiction.
+Qed.
+
+Definition prog_upto (d steps m : nat) (P : tprog) : Prop :=
+  Forall (fun tb => (fst tb <= m)%nat /\ (fst tb <= 999)%nat /\ block_ok d steps (snd tb) = true) P /\ (pcost (render P) < steps)%nat.
+
+Lemma prog_upto_balanced d steps m P : prog_upto (S d) steps m P -> Forall (fun tb => balanced_toks (snd tb) = true) P.
+Proof. intros [H _]. eapply Forall_impl; [|exact H]. intros tb [_ [_ Hb]]. apply (block_balanced d steps _ Hb). Qed.
+
+Theorem program_precreate d steps m P s : prog_upto (S d) steps m P -> cur_ok s ->
+  exec_f (S d) steps (render P) (Ok (with_tracks_upto s m)) = wtu_res m (exec_f (S d) steps (render P) (Ok s)).
+Proof.
+  intros W Hc. pose proof (prog_upto_balanced d steps m P W) as HB. destruct W as [W F].
+  rewrite !(exec_render d steps P _ HB F). apply run_prog_precreate; assumption.
+Qed.
+
+(* ... and when the program names track m, nothing at all *)
+Theorem program_create_named d steps m P s r : prog_upto (S d) steps m P -> cur_ok s -> s_break_flag s = 0 ->
+  In m (map fst P) ->
+  exec_f (S d) steps (render P) (Ok (with_tracks_upto s m)) = Ok r -> exec_f (S d) steps (render P) (Ok s) = Ok r.
+Proof.
+  intros W Hc Hb Hin E. rewrite (program_precreate d steps m P s W Hc) in E.
+  destruct (exec_f (S d) steps (render P) (Ok s)) as [r0| | |] eqn:E0; cbn [wtu_res] in E; try discriminate E.
+  injection E as <-. f_equal. symmetry. apply with_tracks_upto_existing.
+  pose proof (prog_upto_balanced d steps m P W) as HB. destruct W as [W F]. rewrite (exec_render d steps P _ HB F) in E0.
+  apply (run_prog_length d steps P s r0); [|exact E0|exact Hb|exact Hin].
+  eapply Forall_impl; [|exact W]. intros tb [_ H]. exact H.
+Qed.
+
+Lemma prog_wf_upto d steps m P : prog_wf d steps (S m) P -> prog_upto d steps m P.
+Proof.
+  intros [W F]. split; [|exact F]. eapply Forall_impl; [|exact W]. intros tb [H1 H2]. split; [lia|exact H2].
+Qed.
+
+Lemma grouped_tracks P : map fst (grouped P) = firsts (map fst P).
+Proof. unfold grouped. rewrite map_map. cbn [fst]. apply map_id. Qed.
+
+(* the grouped rendering from a song in which the tracks of the program do not all exist yet (m: the highest track number) *)
+Theorem program_grouped_create d steps (P : tprog) (s : song) (m : nat) (alone : nat -> song) :
+  let s1 := with_tracks_upto s m in
+  cur_ok s -> (length (s_tracks s) <= S m)%nat -> In m (map fst P) ->
+  prog_wf (S d) steps (S m) P -> prog_wf (S d) steps (S m) (grouped P) ->
+  s_octave_once s = 0 -> s_break_flag s = 0 ->
+  (forall t, (t <= m)%nat -> nrun (S d) steps (blocks_of t P) (s_set_cur s1 t) (alone t)) ->
+  exists r1 r2, exec_f (S d) steps (render P) (Ok s) = Ok r1 /\ exec_f (S d) steps (render (grouped P)) (Ok s) = Ok r2 /\
+    s_tracks r1 = s_tracks r2 /\ globals_eq (gnorm r1) (gnorm r2) /\
+    length (s_tracks r1) = S m /\
+    (forall t, (t <= m)%nat -> nth t (s_tracks r1) dtrk = nth t (s_tracks (alone t)) dtrk).
+Proof.
+  intros s1 Hc Hlen Hin WP WQ Ho Hb HN.
+  assert (L1 : length (s_tracks s1) = S m) by (unfold s1; rewrite wtu_length; lia).
+  destruct (program_grouped d steps P s1 alone) as [r1 [r2 [E1 [E2 [T [G [L N]]]]]]];
+    try (rewrite L1; assumption); try assumption.
+  { intros t Ht. apply HN. rewrite L1 in Ht. lia. }
+  exists r1, r2.
+  split; [apply (program_create_named d steps m P s r1 (prog_wf_upto _ _ _ _ WP) Hc Hb Hin E1)|].
+  split; [apply (program_create_named d steps m _ s r2 (prog_wf_upto _ _ _ _ WQ) Hc Hb); [|exact E2];
+          rewrite grouped_tracks; apply firsts_in; exact Hin|].
+  split; [exact T|]. split; [exact G|]. split; [rewrite L; exact L1|]. intros t Ht. apply N. rewrite L1. lia.
+Qed.
